@@ -175,6 +175,11 @@ end KaVerif
 namespace KaVerif
 open Num
 
+theorem ratPowNat_eq (q : Rat) (n : Nat) : ratPowNat q n = q ^ n := by
+  unfold ratPowNat
+  rw [← Rat.num_pow, ← Rat.den_pow]
+  exact Rat.mkRat_self (q ^ n)
+
 theorem isFractional_int (k : Int) : isFractional (.int k) = .ok false := by
   simp [isFractional, pyInt, cmpEq, bind, Except.bind]
 
@@ -183,7 +188,7 @@ theorem binop_pow_canon (x y : Rat) (hd : y.den = 1) (hn : 0 ≤ y.num) :
   rw [canon_int_iff y hd]
   rcases canon_cases x with ⟨hxd, hxc, hxe⟩ | ⟨hxd, hxc⟩ <;> rw [hxc] <;>
   simp only [binop, pyPow, isFractional_int, bind, Except.bind, Bool.false_and, Bool.false_eq_true,
-    if_false, hn, ge_iff_le, if_true, simplify_int, simplify_frac]
+    if_false, hn, ge_iff_le, if_true, simplify_int, simplify_frac, ratPowNat_eq]
   rw [canon_of_intCast_eq]; push_cast; rw [hxe]
 
 theorem floor_eq_self_of_den_one (x : Rat) (h : x.den = 1) : x.floor = x.num := by
